@@ -578,7 +578,7 @@ theorem iterLoop_finished (ctx : Ctx) (root : State) (rootHash : UInt64) (worker
     (st : IterSt) (h : st.finished = true) : iterLoop ctx root rootHash workersOf n depth st = st := by
   cases n with
   | zero => rfl
-  | succ n => rw [iterLoop, h]; rfl
+  | succ n => rw [iterLoop_succ, h]; rfl
 
 /-- a panic of a worker of the first iteration is the panic `iterate` reports -/
 theorem first_panic_reported (root : State) (rng0 : Rng.ChaCha8) (maxDepth : Option Nat) (art : Artifact)
@@ -604,7 +604,7 @@ theorem first_panic_reported (root : State) (rng0 : Rng.ChaCha8) (maxDepth : Opt
       | none => dsimp only at hlimit ⊢; omega
       | some d => dsimp only at hlimit ⊢; omega
     unfold iterFinal at hnp
-    rw [hlim, iterLoop] at hnp
+    rw [hlim, iterLoop_succ, boundaryPoll_zero] at hnp
     have hf : (iterInit rng0 art).finished = false := rfl
     rw [hf] at hnp
     simp only [Bool.false_eq_true, ↓reduceIte] at hnp
